@@ -59,3 +59,17 @@ Print Assumptions C01_streaming_operations_not_buffered.
 Theorem C01_payload_operations_buffered : full_body_ok gen_routes gen_code_inputs = true.
 Proof. vm_compute. reflexivity. Qed.
 Print Assumptions C01_payload_operations_buffered.
+
+(* known finding cmu-form-content-type, exhibited on the composed model of the service (model/Service.v, compared with the code trace by trace
+   in C07): the same CreateMultipartUpload request is dispatched with the Content-Type multipart/related and refused before routing with the
+   Content-Type multipart/form-data - a value of the ContentType member selects the browser-form path *)
+From S3V Require Import lib.Sha256 lib.Sha1 model.Service.
+Example C01_create_multipart_upload_form_content_type_refuted :
+  let rq ct := {| rq_meth := b "POST"; rq_raw_path := b "/my-bucket/obj.bin"; rq_raw_query := Some (b "uploads");
+                  rq_headers := [(b "host", b "s3.example.com"); (b "content-type", ct)]; rq_h2_authority := None; rq_body := BBytes [] |} in
+  let cfg := {| cf_host := NoHostParser; cf_auth := None; cf_access := AAllow; cf_route := RNone |} in
+  let run ct := show_call (call sha256 mac_sha1 epoch_of_iso gen_routes (fun _ _ => None) cfg 0%Z (rq ct)) in
+  run (b "multipart/related") = b "typed_access(-,create_multipart_upload);backend(create_multipart_upload,-,-,-)|backend:CreateMultipartUpload"
+  /\ run (b "multipart/form-data; boundary=xyz") = b "|error:NotImplemented".
+Proof. vm_compute. split; reflexivity. Qed.
+Print Assumptions C01_create_multipart_upload_form_content_type_refuted.
